@@ -9,6 +9,7 @@ package py
 import (
 	"bytes"
 	"fmt"
+	"math"
 	"strings"
 )
 
@@ -258,6 +259,77 @@ func (a Bytes) M__iadd__(other Object) (Object, error) {
 	return NotImplemented, nil
 }
 
+func (a Bytes) M__len__() (Object, error) {
+	return Int(len(a)), nil
+}
+
+func (a Bytes) M__iter__() (Object, error) {
+	return NewIterator(a), nil
+}
+
+// Indexing gives the byte as an int, slicing gives bytes
+func (a Bytes) M__getitem__(key Object) (Object, error) {
+	if slice, ok := key.(*Slice); ok {
+		start, stop, step, slicelength, err := slice.GetIndices(len(a))
+		if err != nil {
+			return nil, err
+		}
+		if step == 1 {
+			// Return a subslice since bytes are immutable
+			if stop < start {
+				stop = start
+			}
+			return a[start:stop], nil
+		}
+		newBytes := make(Bytes, slicelength)
+		for i, j := start, 0; j < slicelength; i, j = i+step, j+1 {
+			newBytes[j] = a[i]
+		}
+		return newBytes, nil
+	}
+	i, err := IndexIntCheck(key, len(a))
+	if err != nil {
+		return nil, err
+	}
+	return Int(a[i]), nil
+}
+
+// An int is in the bytes if one of the bytes has that value, bytes
+// are in the bytes if they are a contiguous part of them
+func (a Bytes) M__contains__(item Object) (Object, error) {
+	if b, ok := convertToBytes(item); ok {
+		return NewBool(bytes.Contains(a, b)), nil
+	}
+	if _, ok := item.(String); ok {
+		return nil, ExceptionNewf(TypeError, "Type str doesn't support the buffer API")
+	}
+	value, err := IndexInt(item)
+	if err != nil {
+		return nil, err
+	}
+	if value < 0 || value >= 256 {
+		return nil, ExceptionNewf(ValueError, "byte must be in range(0, 256)")
+	}
+	return NewBool(bytes.IndexByte(a, byte(value)) >= 0), nil
+}
+
+func (a Bytes) M__mul__(other Object) (Object, error) {
+	if b, ok := convertToInt(other); ok {
+		if b < 0 {
+			b = 0
+		}
+		if len(a) > 0 && int(b) > math.MaxInt/len(a) {
+			return nil, ExceptionNewf(OverflowError, "repeated bytes are too long")
+		}
+		return Bytes(bytes.Repeat(a, int(b))), nil
+	}
+	return NotImplemented, nil
+}
+
+func (a Bytes) M__rmul__(other Object) (Object, error) {
+	return a.M__mul__(other)
+}
+
 func (a Bytes) Replace(args Tuple) (Object, error) {
 	var (
 		pyold Object = None
@@ -283,6 +355,12 @@ var (
 	_ richComparison = (Bytes)(nil)
 	_ I__add__       = (Bytes)(nil)
 	_ I__iadd__      = (Bytes)(nil)
+	_ I__mul__       = (Bytes)(nil)
+	_ I__rmul__      = (Bytes)(nil)
+	_ I__len__       = (Bytes)(nil)
+	_ I__iter__      = (Bytes)(nil)
+	_ I__getitem__   = (Bytes)(nil)
+	_ I__contains__  = (Bytes)(nil)
 )
 
 func init() {
